@@ -90,9 +90,33 @@ def _pooled(key, make):
     st = _POOL.get(key)
     if st is None:
         st = _POOL[key] = make()
-    elif _ROUTE[0] % 3 == 0:
-        st.reinitialize_parameters()                         # new Parameter objects, then set below
+    else:
+        if _ROUTE[0] % 2 == 0:
+            _failed_call(st, _ROUTE[0] // 2)
+        if _ROUTE[0] % 3 == 0:
+            st.reinitialize_parameters()                     # new Parameter objects, then set below
     return st
+
+
+def _failed_call(st, which):
+    """A live object has also seen calls that failed (the user caught the exception and went on): a wrong width,
+    an unknown basis letter in the middle of a batch, a refused request.  Whatever such a call left behind
+    must not show in the next, legal evaluation."""
+    import numpy as np
+    nv = st.num_visible
+    wide = torch.zeros(3, nv + 1, dtype=torch.double)
+    rowsZ = torch.tensor([[(i >> j) & 1 for j in range(nv)] for i in range(6)], dtype=torch.double)
+    bad = np.array([["X"] + ["Z"] * (nv - 1), ["Y"] + ["Z"] * (nv - 1), ["Z"] * nv, ["Q"] + ["Z"] * (nv - 1),
+                    ["Z"] * nv, ["X"] + ["Z"] * (nv - 1)])
+    calls = [lambda: st.gradient(rowsZ, bases=bad), lambda: st.probability(wide), lambda: st.generate_hilbert_space(size=40),
+             lambda: st.rbm_am.effective_energy_gradient(wide), lambda: st.sample(k=1, num_samples=-2),
+             lambda: st.compute_exact_gradients(rowsZ, st.generate_hilbert_space(), bases_batch=bad),
+             lambda: st.fit(rowsZ, epochs=1, pos_batch_size=2, input_bases=bad[:, :nv]),
+             lambda: (st.psi if hasattr(st, "psi") else st.rho)(wide)]
+    try:
+        calls[which % len(calls)]()
+    except Exception:      # noqa: BLE001 - the point is that the call fails
+        pass
 
 
 def set_net(rbm, net, B):
